@@ -21,6 +21,7 @@ def run(payload):
   from precondition.tearfree import shampoo as tfs
 
   out = []
+  reshapers = {}
   for case in payload["cases"]:
     kind = case["kind"]
     r = dict(kind=kind, case=case, ok=True, why=[])
@@ -174,7 +175,12 @@ def run(payload):
                            merged=[int(v) for v in sh.merged_shape],
                            padded=[int(v) for v in sh.padded_shape])
         x = jnp.arange(1, n + 1, dtype=jnp.int32).reshape(shape)
-        mt, ut = tfr.merge(opts), tfr.unmerge(opts)
+        # one merge / unmerge transformation per option set, reused for every tensor shape of the run
+        # (they are stateless functions of the options; added after a seeded change that memoised the
+        # derived shapes per transformation object, keyed by tree structure only, was missed)
+        if (m, b) not in reshapers:
+          reshapers[(m, b)] = (tfr.merge(opts), tfr.unmerge(opts))
+        mt, ut = reshapers[(m, b)]
         mx, _ = mt.update({"w": x}, mt.init({"w": p}), {"w": p})
         r["merged_shape_actual"] = list(map(int, mx["w"].shape))
         bk, _ = ut.update(mx, ut.init({"w": p}), {"w": p})
